@@ -200,3 +200,26 @@ ADDENDA4 = {
 }
 for _k, _t in ADDENDA4.items():
     CLAIMS[_k]["text"] = CLAIMS[_k]["text"] + " " + _t
+
+ADDENDA5 = {
+ "C01": "Also: Rename stores a directory under the new name only where it was found absent; no by-name method succeeds before its look-up.",
+ "C02": "Also: a positioned read's window starts at or before the end of the content (an offset past the end answers EOF).",
+ "C03": "Also: Rename deletes no record but the source's.",
+ "C04": "Also: prefix tests between names in keyvalue and mount are on element boundaries.",
+ "C06": "Also: no path is used as a strings.Trim cutset.",
+ "C07": "Also: helpers delegate with the pair of one Mount call per name; the generic view delegates to the exported helper of the same name.",
+ "C08": "Also: the R06.3 pairing analysis under C08.",
+ "C09": "Also: relPath never answers a rooted name; Sub roots are joined with path.Join.",
+ "C10": "Also: no copy buffer is kept in the file system value; the directory handle moves its cursor by the page it returns.",
+ "C12": "Also: entry-name relations are tested on element boundaries; files are created with the header's own mode.",
+ "C13": "Also: only spawned writers send on the error channel; no destination error is dropped.",
+ "C14": "Also: ErrNotExist/ErrExist of a mutating callee is not an accepted reason to ignore its error.",
+ "C15": "Also: handles mutate the loaded content blob, never a view of it; Range callbacks store no slice element at an unbounded index.",
+ "C16": "Also: a paging ReadDir moves its cursor by exactly the page returned; the cache memo and route rules under C16.",
+ "C17": "Also: no handle method returns with a mutex held; File helpers hand their file's error on.",
+ "C18": "Also: the handler's error reaches the recorded result when the handler runs in a helper.",
+ "C19": "Also: caller-sized allocations under the mutex are survivable; js/wasm Truncate records a length bounded by the current one.",
+ "C20": "Also: the tree walk records every listed entry.",
+}
+for _k, _t in ADDENDA5.items():
+    CLAIMS[_k]["text"] = CLAIMS[_k]["text"] + " " + _t
